@@ -1452,3 +1452,51 @@ func c16ReadCallsStartFresh(c *core.Ctx) {
 	}
 	c.Floor("ReadContract/sites", n, 1)
 }
+
+// c07SetStateAlwaysDirty: C07.12. In StorageCache.SetState no return is reachable from the entry around the update of the dirty map.
+func c07SetStateAlwaysDirty(c *core.Ctx) {
+	fn := c.Fn("chain/account.StorageCache.SetState")
+	dirty := c.FieldVar("chain/account.StorageCache", "dirty")
+	if len(fn.Params) < 3 || len(fn.Blocks) == 0 {
+		c.Undecided("SetState:shape", "must-pass-through", fn.Pos(), "SetState(key, value) expected")
+		return
+	}
+	avoid := map[*ssa.BasicBlock]bool{}
+	keyOK := true
+	var first ssa.Instruction
+	for _, b := range fn.Blocks {
+		for _, in := range b.Instrs {
+			mu, ok := in.(*ssa.MapUpdate)
+			if !ok {
+				continue
+			}
+			if _, f, isLd := core.FieldLoad(mu.Map); isLd && f == dirty {
+				avoid[b] = true
+				if first == nil {
+					first = mu
+				}
+				if mu.Key != ssa.Value(fn.Params[1]) {
+					keyOK = false
+				}
+			}
+		}
+	}
+	if first == nil {
+		c.Check("StorageCache.SetState:every-write-is-dirty", "must-pass-through", false, fn.Pos(), "SetState never records the write in the dirty map")
+		return
+	}
+	ok, why := true, ""
+	for _, r := range core.Returns(fn) {
+		if avoid[r.Block()] {
+			continue
+		}
+		if avoid[fn.Blocks[0]] {
+			break
+		}
+		if core.ReachAvoiding(fn.Blocks[0], r.Block(), avoid) {
+			ok, why = false, "a return (block "+r.Block().String()+") is reachable without the dirty update"
+		}
+	}
+	c.Check("StorageCache.SetState:every-write-is-dirty", "must-pass-through", ok, first.Pos(), "every path through SetState records the write in the dirty map that Update flushes into the trie: %s", orOK(why))
+	c.Check("StorageCache.SetState:dirty-key-is-the-written-key", "value-flow", keyOK, first.Pos(), "the dirty entry is made under the key that was written")
+}
